@@ -1,5 +1,6 @@
 // bounded-pkg: utils
 // bounded-func: utils.CopyHeaders (assumed contract)
+// bounded-props: C06 C07 C15 C20
 // bounded-bound: all pairs of header maps over keys {A,B} with value lists of length 0..2 over values {"", x, y} (dst and src independently)
 package utils
 
